@@ -261,6 +261,28 @@ theorem special_directives_table :
       ("add_exception_view", "unguarded", true, true),
       ("add_static_view", "unguarded", false, false)] := by decide
 
+/-! ### the `viewdefaults` merge, probed -/
+
+def vdCode (code id : Nat) : Option PermArg :=
+  if code = 0 then none else if code = 1 then some .absent else if code = 2 then some (.name id) else some .npr
+
+def viewDefaultsRowOk (r : Nat × Nat × Nat × Nat × Nat) : Bool :=
+  let v : ViewStmt := { tag := 1, name := 0, route := 0, ctxClass := 0, isExcCtx := false, excOnly := false,
+                        perm := decodePerm r.2.2.1 1, order := 0, preds := [], wrapper := none, act := 0,
+                        vdOwn := vdCode r.2.1 3, vdBase := vdCode r.1 2 }
+  r.2.2.2.2 == ((deriveOne true (if r.2.2.2.1 = 0 then .absent else .name 4) v false).guard).getD 0
+
+/-- BEHAVIOURAL.  `config.add_view(Sub, attr=…)` on the tree under test, under a policy, over base class {undecorated,
+`@view_defaults` without permission, a name, the marker} × the class itself {same} × explicit `permission=` {absent, a
+name, the marker} × default permission {unset, set} (96 runs): the derived callable's guard is the model's
+`effPerm dflt (stmtPerm v)` — explicit argument, else the class's `__view_defaults__` found by ordinary attribute
+lookup (own replaces inherited wholesale; an undecorated subclass inherits), else the default permission.  A
+class-level permission makes the forbidden / notfound / exception directives refuse the class. -/
+theorem view_defaults_behaviour :
+    viewDefaultsProbe.length = 96 ∧ viewDefaultsProbe.all viewDefaultsRowOk = true ∧
+    classPermissionRejected = [("add_forbidden_view", true), ("add_notfound_view", true), ("add_exception_view", true)] := by
+  decide +kernel
+
 /-! ## configuration: effective permission, and independence of the written order -/
 
 /-- The effective permission as the statement defines it: the explicit permission; otherwise the default
@@ -269,6 +291,26 @@ theorem effective_permission_spec (dflt perm : PermArg) (excView : Bool) (p : Na
     effPerm dflt perm excView = some p ↔
       perm = .name p ∨ (perm = .absent ∧ excView = false ∧ dflt = .name p) := by
   cases perm <;> cases excView <;> cases dflt <;> simp [effPerm]
+
+/-- … with the view-defaults layer in front: the explicit `permission=` argument; otherwise the `permission` of the
+class's `__view_defaults__` — the class's own if it has one, else an inherited one; otherwise (no class-level
+permission) the default permission unless it is an exception view; the marker at any of the three levels means none. -/
+theorem effective_permission_of_statement (dflt : PermArg) (v : ViewStmt) (excView : Bool) (p : Nat) :
+    effPerm dflt (stmtPerm v) excView = some p ↔
+      v.perm = .name p ∨
+      (v.perm = .absent ∧ classDefault v.vdOwn v.vdBase = .name p) ∨
+      (v.perm = .absent ∧ classDefault v.vdOwn v.vdBase = .absent ∧ excView = false ∧ dflt = .name p) := by
+  rw [effective_permission_spec]
+  cases hp : v.perm <;> simp [stmtPerm, hp]
+
+/-- which `__view_defaults__` counts: the class's own replaces an inherited one wholesale (even when it names no
+permission); an undecorated subclass sees its base's -/
+theorem class_default_lookup (own base : Option PermArg) :
+    classDefault own base = (match own, base with
+      | some p, _ => p
+      | none, some p => p
+      | none, none => .absent) := by
+  cases own <;> cases base <;> rfl
 
 /-- After one commit scope, on top of ANY prior registry state and for ANY written order of the statements: the
 policy flag and the default permission are the scope's final ones, and the registered views are the prior ones
@@ -289,7 +331,7 @@ theorem guard_is_effective_permission (r0 : Reg) (stmts : List Stmt) (d : DView)
     d ∈ r0.views ∨
     ∃ dir v, Stmt.addView dir v ∈ stmts ∧ d.tag = v.tag ∧
       (d.exc = true → (lower dir v).isExcCtx = true) ∧ (d.exc = false → (lower dir v).excOnly = false) ∧
-      d.guard = if policyAfter r0 stmts then effPerm (dfltAfter r0 stmts) (lower dir v).perm d.exc else none := by
+      d.guard = if policyAfter r0 stmts then effPerm (dfltAfter r0 stmts) (stmtPerm (lower dir v)) d.exc else none := by
   rw [(views_see_final_policy r0 stmts).2.2] at hd
   rcases List.mem_append.mp hd with h | h
   · exact Or.inl h
@@ -354,7 +396,7 @@ theorem guard_none_of_npr (policy : Bool) (dflt : PermArg) (v : ViewStmt) (h : v
     ∀ d ∈ deriveBoth policy dflt v, d.guard = none := by
   intro d hd
   simp only [deriveBoth, List.mem_append] at hd
-  have hb : ∀ b, (deriveOne policy dflt v b).guard = none := by intro b; simp [deriveOne, effPerm, h]
+  have hb : ∀ b, (deriveOne policy dflt v b).guard = none := by intro b; simp [deriveOne, effPerm, stmtPerm, h]
   rcases hd with hd | hd <;> split at hd <;>
     first
     | (simp only [List.mem_singleton] at hd; subst hd; exact hb _)
@@ -403,7 +445,7 @@ theorem mediation_end_to_end (r0 : Reg) (stmts : List Stmt) (w : World) (q : Req
     (hi : (handle chain (configure r0 stmts).views w q).1[i]? = some (.body tag exc ctx g)) :
     ((∃ d ∈ r0.views, d.tag = tag ∧ d.exc = exc ∧ d.guard = g) ∨
      (∃ dir v, Stmt.addView dir v ∈ stmts ∧ v.tag = tag ∧
-        g = if policyAfter r0 stmts then effPerm (dfltAfter r0 stmts) (lower dir v).perm exc else none)) ∧
+        g = if policyAfter r0 stmts then effPerm (dfltAfter r0 stmts) (stmtPerm (lower dir v)) exc else none)) ∧
     (∀ p, g = some p → ∃ j, j < i ∧
       (handle chain (configure r0 stmts).views w q).1[j]? = some (.permits ctx p true) ∧ w.pol ctx p = true) := by
   have h := mediation r0 stmts w q i tag exc ctx g hi
